@@ -981,9 +981,12 @@ class G:
             else:
                 s, _, size = self.struct(0, item_static, False)
             cbits = self.pick([8, 8, 16, 4])
+            cbt = self.pick(["A_UINT32", "A_UINT32", "A_UINT32", "A_INT32"])     # (a signed count can arrive negative)
             cdop = {"k": "simple", "id": self.nid("dop"),
-                    "dct": {"t": "std", "bt": "A_UINT32", "bl": cbits, "enc": None, "hl": self.pick([None, False])},
-                    "compu": {"c": "IDENTICAL"}, "pt": "A_UINT32"}
+                    "dct": {"t": "std", "bt": cbt, "bl": cbits, "enc": None, "hl": self.pick([None, False])},
+                    "compu": {"c": "IDENTICAL"}, "pt": cbt}
+            if cbt == "A_INT32":
+                self.features.add("dlfield-signed-count")
             cbit = self.d(st.integers(0, 4)) if cbits == 4 else 0
             off = (cbit + cbits + 7) // 8 + self.pick([0, 0, 1])
             n = self.d(st.integers(2, 3)) if ({"dlfield-terminated-items", "dlfield-lengthkey-items"} & self.features) \
